@@ -46,7 +46,7 @@ def run_property(prop, tier, seed, jobs=None, only=None, verbose=False):
     if not canary():
         print("ENGINE-ERROR: canary obligation was not refuted")
         return EXIT_ENGINE
-    results, prog = engine.run_specs(specs, tier=tier, seed=seed, jobs=jobs)
+    results, prog = engine.run_specs(specs, tier=tier, seed=seed, jobs=jobs, prog=prog)
     known = engine.load_known_findings()
     obls, errors, unsupported = [], [], []
     functions = set()
